@@ -1,5 +1,6 @@
 from __future__ import annotations
 from abc import abstractmethod
+import re
 import typing
 from typing import Tuple
 
@@ -780,9 +781,22 @@ class VhdlScope:
             else:
                 raise AssertionError("Internal error, cannot name object")
 
+            if isinstance(obj, Port):
+                # ports are part of the interface and cannot be renamed
+                assert (
+                    re.fullmatch(r"[A-Za-z](_?[A-Za-z0-9])*", name) is not None
+                ), f"port name '{name}' is not a valid VHDL identifier"
+                assert (
+                    name.lower() not in used_names
+                ), f"port name '{name}' is a reserved name or collides with another declaration"
+
             # remove leading and trailing underscores
             # since they are not allowed in vhdl
             name = name.strip("_")
+
+            # consecutive underscores are not allowed either
+            while "__" in name:
+                name = name.replace("__", "_")
 
             # avoid name collisions by appending counter to names
             if name.lower() in used_names:
